@@ -1,5 +1,7 @@
 SPECIFICATION Spec
 CONSTANTS
   Deviations = {}
-INVARIANTS ExactlyViewAttributes ViewHeaderAccompanies ClientRefusesUnknownView NothingOutsideTheView
+  ReqModes = {"base", "sel", "oth", "nest"}
+  AllFixed = TRUE
+INVARIANTS ExactlyViewAttributes ViewHeaderAccompanies ClientRefusesUnknownView NothingOutsideTheView ValidIsDelivered InvalidIsRefused ClientNeverCrashes
 CHECK_DEADLOCK FALSE
